@@ -35,6 +35,7 @@ var c04Catalogue = []string{
 	"wrong-k1", "wrong-sid-signed", "wrong-sid-unsigned", "sessionless-wrapper", "plaintext-unsigned-session-sid", "unsigned-encrypted",
 	"pad-wrong-value", "pad-wrong-count", "pad-count-over-15", "pad-count-16", "integrity-pad-not-ff", "different-body-unsigned-same-seq",
 	"pad-sequential-17", "pad-sequential-24", "pad-sequential-40", "pad-sequential-200", "pad-sequential-255", "pad-last-byte-wrong", "pad-one-byte-wrong",
+	"pad-two-bytes-same-flip", "pad-two-bytes-swapped", "pad-all-zero-3", "pad-all-zero-7", "pad-all-zero-11", "pad-all-zero-15", "pad-all-ff-4", "pad-shifted-by-one", "pad-multi-a", "pad-multi-b", "pad-multi-c",
 	"sid-bmc-signed", "sid-bmc-unsigned", "sid-zero-signed", "sid-plus1-signed", "sid-minus1-signed", "sid-swapped-signed", "sid-highbit-signed", "sid-inverted-signed", "sid-bmc-plus1-signed",
 }
 
@@ -325,6 +326,62 @@ func c04Forge(o c04One, b *refbmc.BMC, auth []byte, forgedBody []byte, r interfa
 			pt = append(pt, byte(i+1))
 		}
 		pt = append(pt, byte(n))
+		return se.Wrap(nil, refbmc.WrapOpts{RawPlain: pt}), true
+	case "pad-two-bytes-same-flip", "pad-two-bytes-swapped", "pad-all-zero-3", "pad-all-zero-7", "pad-all-zero-11", "pad-all-zero-15", "pad-all-ff-4", "pad-shifted-by-one", "pad-multi-a", "pad-multi-b", "pad-multi-c":
+		// a pad of the right length in which several bytes are wrong at once (errors that
+		// cancel under XOR or addition, constant fills, a shifted count)
+		want := 6
+		fmt.Sscanf(o.Kind, "pad-all-zero-%d", &want)
+		fmt.Sscanf(o.Kind, "pad-all-ff-%d", &want)
+		mm := append([]byte(nil), msg...)
+		for (16-(len(mm)+1)%16)%16 != want {
+			mm = append(mm[:len(mm)-1], 0, 0)
+			mm[len(mm)-1] = refbmc.Csum(mm[3 : len(mm)-1])
+		}
+		pad := make([]byte, want)
+		for i := range pad {
+			pad[i] = byte(i + 1)
+		}
+		switch {
+		case o.Kind == "pad-two-bytes-same-flip":
+			pad[0] ^= 0x80
+			pad[1] ^= 0x80
+		case o.Kind == "pad-two-bytes-swapped":
+			pad[1], pad[4] = pad[4], pad[1]
+		case strings.HasPrefix(o.Kind, "pad-all-zero"):
+			for i := range pad {
+				pad[i] = 0
+			}
+		case strings.HasPrefix(o.Kind, "pad-all-ff"):
+			for i := range pad {
+				pad[i] = 0xff
+			}
+		case o.Kind == "pad-shifted-by-one":
+			for i := range pad {
+				pad[i] = byte(i)
+			}
+		default:
+			// two to four bytes wrong, chosen so that the XOR of the errors is zero
+			k := map[string]int{"pad-multi-a": 2, "pad-multi-b": 3, "pad-multi-c": 4}[o.Kind]
+			x := randBytes(k)
+			acc := byte(0)
+			for i := 0; i < k-1; i++ {
+				if x[i] == 0 {
+					x[i] = 0x21
+				}
+				acc ^= x[i]
+			}
+			if acc == 0 {
+				x[0] ^= 0x44
+				acc = 0x44
+			}
+			x[k-1] = acc
+			for i := 0; i < k; i++ {
+				pad[i+1] ^= x[i]
+			}
+		}
+		pt := append(append([]byte(nil), mm...), pad...)
+		pt = append(pt, byte(want))
 		return se.Wrap(nil, refbmc.WrapOpts{RawPlain: pt}), true
 	case "pad-last-byte-wrong", "pad-one-byte-wrong":
 		mm := append([]byte(nil), msg...)
